@@ -17,9 +17,11 @@ import Driver.C04
 import Driver.C09
 import Driver.C20
 import Driver.C06
+import Driver.Wiring
 open Lean Driver
 
 def dispatch (p : String) (inp impl : Json) : CaseResult :=
+  if jstr inp "tag" == "nodewire" then Wiring.handle inp impl else
   match p with
   | "C16" => C16.handle inp impl
   | "C10" => C10.handle inp impl
